@@ -5,7 +5,8 @@
 set -u
 cd /verif
 if ! git -C /repo diff --quiet; then echo "repo not clean"; exit 2; fi
-trap 'git -C /repo checkout -- . 2>/dev/null' EXIT
+bak=$(mktemp -d); cp -a evidence/. "$bak"/ 2>/dev/null
+trap 'git -C /repo checkout -- . 2>/dev/null; cp -a "$bak"/. evidence/ 2>/dev/null; rm -rf "$bak"; rm -f replays/*.json' EXIT
 for d in seeded/*/; do
   name=$(basename "$d")
   checks=$(python3 -c "import json;m=json.load(open('$d/meta.json'));print(' '.join(sorted(set([m['property']]+list(m['detected_by'].keys())))))")
